@@ -1,7 +1,101 @@
 import PydlVerif.Model.JsonUtil
+import PydlVerif.Model.Trace
 open Lean
 namespace PydlVerif.Driver.C13
+open PydlVerif PydlVerif.Trace
 
-def handle (_j : Json) : Except String Json := throw "C13: no model operations yet"
+/-- how scalars cross the protocol: Float as bit pattern both ways; Rat in as the exact
+value of a bit pattern, out as [num, den] -/
+structure Codec (α : Type) where
+  dec : Json → Except String α
+  enc : α → Json
+
+def floatC : Codec Float := ⟨J.float, J.ofFloat⟩
+def ratC : Codec Rat := ⟨fun j => do pure (ratOfBits (← J.bits j)), J.ofRat⟩
+
+variable {α : Type} [Scalar α]
+
+def resJ {β : Type} (f : β → Json) : Trace.R β → Json
+  | .ok v => Json.mkObj [("ok", f v)]
+  | .error e => Json.mkObj [("err", Json.str e)]
+
+def arr1 (c : Codec α) (j : Json) : Except String (Array α) := J.array c.dec j
+def arr2 (c : Codec α) (j : Json) : Except String (Array (Array α)) := J.array (arr1 c) j
+def bools1 (j : Json) : Except String (Array Bool) := J.array J.bool j
+def bools2 (j : Json) : Except String (Array (Array Bool)) := J.array bools1 j
+def enc1 (c : Codec α) (a : Array α) : Json := J.ofArray c.enc a
+def enc2 (c : Codec α) (a : Array (Array α)) : Json := J.ofArray (enc1 c) a
+def encB2 (a : Array (Array Bool)) : Json := J.ofArray (J.ofArray Json.bool) a
+
+def xin (c : Codec α) (j : Json) : Except String (XIn α) := do
+  match j.getObjVal? "xs" with
+  | .ok v => pure (.arr (← arr1 c v))
+  | .error _ => pure (.scalar (← c.dec (← J.fld j "x")))
+
+def tsetOf (c : Codec α) (j : Json) : Except String (TSet α) := do
+  pure { func := ← J.fStr j "func", xmin := ← c.dec (← J.fld j "xmin"), xmax := ← c.dec (← J.fld j "xmax"),
+         coeff := ← arr2 c (← J.fld j "coeff"), ncoeff := ← J.fNat j "ncoeff",
+         xjumplo := ← J.fOpt c.dec j "xjumplo", xjumphi := ← J.fOpt c.dec j "xjumphi",
+         xjumpval := ← J.fOpt c.dec j "xjumpval" }
+
+def handleWith (c : Codec α) (op : String) (j : Json) : Except String Json := do
+  match op with
+  | "basis" =>
+    let f ← J.fStr j "func"
+    let m ← J.fNat j "m"
+    let x ← xin c j
+    let r : Trace.R (Array (Array α)) ← (match f with
+      | "legendre" => pure (flegendre x m)
+      | "chebyshev" => pure (fchebyshev x m)
+      | "chebyshev_split" => pure (fchebyshevSplit x m)
+      | "poly" => pure (fpoly x m)
+      | _ => throw s!"basis: unknown function {f}")
+    pure (resJ (enc2 c) r)
+  | "fit" =>
+    let inp : FitIn α := {
+      x := ← arr1 c (← J.fld j "x"), y := ← arr1 c (← J.fld j "y"), ncoeff := ← J.fNat j "ncoeff",
+      invvar := ← J.fOpt (arr1 c) j "invvar", func := ← J.fStr j "func",
+      ia := ← J.fOpt bools1 j "ia", inputans := ← J.fOpt (arr1 c) j "inputans",
+      inputfunc := ← J.fOpt (arr1 c) j "inputfunc" }
+    pure (resJ (fun (o : FitOut α) => Json.mkObj [("res", enc1 c o.res), ("yfit", enc1 c o.yfit)])
+      (funcFit gaussSolve inp))
+  | "tsfit" =>
+    let inp : TsIn α := {
+      xpos := ← arr2 c (← J.fld j "xpos"), ypos := ← arr2 c (← J.fld j "ypos"),
+      invvar := ← J.fOpt (arr2 c) j "invvar", inmask := ← J.fOpt bools2 j "inmask",
+      func := ← J.fStr j "func", ncoeff := ← J.fNat j "ncoeff",
+      xmin := ← J.fOpt c.dec j "xmin", xmax := ← J.fOpt c.dec j "xmax", maxiter := ← J.fInt j "maxiter",
+      xjumplo := ← J.fOpt c.dec j "xjumplo", xjumphi := ← J.fOpt c.dec j "xjumphi",
+      xjumpval := ← J.fOpt c.dec j "xjumpval" }
+    let r := tsetFit gaussSolve inp
+    -- optionally evaluate the fitted set again (xy at the fitting positions / on the default grid)
+    let again ← J.fOpt J.str j "then"
+    pure (resJ (fun (o : TsOut α) =>
+      let base := [("coeff", enc2 c o.tset.coeff), ("yfit", enc2 c o.yfit), ("outmask", encB2 o.outmask),
+                   ("xmin", c.enc o.tset.xmin), ("xmax", c.enc o.tset.xmax)]
+      let extra := match again with
+        | some "xy" => [("xy", resJ (fun (p : Array (Array α) × Array (Array α)) => enc2 c p.2)
+                                   (o.tset.xy (some inp.xpos) false))]
+        | _ => []
+      Json.mkObj (base ++ extra)) r)
+  | "xy" =>
+    let t ← tsetOf c j
+    let xpos ← J.fOpt (arr2 c) j "xpos"
+    let ign ← J.fBool j "ignore_jump"
+    pure (resJ (fun (p : Array (Array α) × Array (Array α)) =>
+      Json.mkObj [("x", enc2 c p.1), ("y", enc2 c p.2)]) (t.xy xpos ign))
+  | "xnorm" =>
+    let t ← tsetOf c j
+    let xs ← arr1 c (← J.fld j "xs")
+    let jump ← J.fBool j "jump"
+    pure (resJ (enc1 c) (t.xnorm xs jump))
+  | _ => throw s!"C13: unknown op {op}"
+
+def handle (j : Json) : Except String Json := do
+  let op ← J.fStr j "op"
+  let mode ← J.fOpt J.str j "mode"
+  match mode with
+  | some "rat" => handleWith ratC op j
+  | _ => handleWith floatC op j
 
 end PydlVerif.Driver.C13
